@@ -421,6 +421,9 @@ func (g *g2l) leanType(t types.Type) (string, error) {
 
 // zero value of a type, as Lean text
 func (g *g2l) zero(t types.Type) (string, error) {
+	if z, ok := g.zeroBuf(t); ok { // go2lean_buffer.go: bytes.Buffer
+		return z, nil
+	}
 	lt, err := g.leanType(t)
 	if err != nil {
 		return "", err
